@@ -372,7 +372,28 @@ def run_layout(case, order, prng):
     return stages
 
 
-RUNNERS = {"refine": run_refine, "filter": run_filter, "hmmer": run_hmmer, "world": run_world, "layout": run_layout}
+def run_ruleset(case, order, prng):
+    """ the real get_ruleset on the shipped rule files; the limiting names arrive in another order per replay """
+    from antismash.detection import hmm_detection as HD
+    names = list(case["names"])
+    cats = list(case["categories"])
+    if order:
+        prng.shuffle(names)
+        prng.shuffle(cats)
+    options = SimpleNamespace(hmmdetection_strictness=case["strictness"], hmmdetection_limit_to_rules=names,
+                              hmmdetection_limit_to_categories=cats, taxon=case["taxon"],
+                              hmmdetection_fungal_cutoff_multiplier=1.5,
+                              hmmdetection_fungal_neighbourhood_multiplier=0.5)
+    HD._RULESETS.clear()        # pylint: disable=protected-access
+    try:
+        ruleset = HD.get_ruleset(options)
+    except Exception as err:  # pylint: disable=broad-except
+        return {"ruleset_crash": crash_dump(err)}
+    return {"ruleset_rules": [[rule.name, rule.category, rule.cutoff, rule.neighbourhood, sorted(rule.superiors or [])]
+                              for rule in ruleset.rules]}
+
+
+RUNNERS = {"ruleset": run_ruleset, "refine": run_refine, "filter": run_filter, "hmmer": run_hmmer, "world": run_world, "layout": run_layout}
 
 
 def code_fingerprint() -> str:
